@@ -1,5 +1,6 @@
 import RulioProofs.Cache
 import RulioProofs.CacheInst
+import RulioModel.Gen.C17
 
 /-! # C17 — the location cache is transparent (property theorems only)
 
@@ -10,6 +11,19 @@ marker).  Helper lemmas: `RulioProofs/Cache.lean`.  The one explicit hypothesis 
 discharged for the State model below). -/
 
 variable {sem : LocSem}
+
+/-- **Every request of the System brackets its location once** (table regenerated from `sys/system.go` on every run,
+`RulioModel/Gen/C17.lean`): each method of `*System` that works on a location opens it through `findLocation` exactly
+once and releases it through `releaseLocation` exactly once — by `defer`, or by a plain call with no `return` between the
+two. This is the shape `reqE` (one `openE`, the work, one `releaseE`) gives every request in the model; a second release
+would drop a hold that belongs to another request (`Pending` counts the holders), a missing one would pin the entry. -/
+theorem requests_release_once :
+    ∀ m ∈ Gen.C17.sysMethods, m.finds = 1 ∧ m.releasesPlain + m.releasesDeferred = 1 ∧ m.returnsHeld = 0 := by
+  decide
+
+/-- the table is not empty and names the requests the histories use (so the statement above is not vacuous) -/
+example : ["AddFact", "ProcessEvent", "SearchFacts", "GetLastUpdatedMem", "GetLocation"].all
+    (fun n => Gen.C17.sysMethods.any (·.name == n)) = true := by decide
 
 /-- **Sequential transparency.** For every location semantics for which reloading from storage is the identity
 on observations (`ReloadOK`, the statement of C06, an explicit hypothesis), every cache configuration (TTL never /
